@@ -1,0 +1,11 @@
+//go:build !verif
+
+// Package verifhook holds the instrumentation points used by the /verif simulation harness.
+// Without the build tag "verif" every function here is an empty, inlinable no-op.
+package verifhook
+
+// RecoveredPanic is called when a supervised loop recovered from a panic.
+func RecoveredPanic(err error) {}
+
+// At marks a named yield point.
+func At(point string) {}
